@@ -19,7 +19,7 @@ from ..models import clusterref as cr
 ID = 'C10'
 RULE = ('(a) data sets: ordered tuples of distinct lattice points (Q: 1-D {0..4} n<=3, 2-D 2x2.. n<=3; T larger) x '
         'every ordered list of <=4 (Q: <=3 for 2-D) distinct grid points as centers x metrics x dtypes through '
-        'assign_to_nearest_center, predict (after fit), find_cluster_centers; (b) all compositions of n<=6 (T: 8) x all '
+        'assign_to_nearest_center (also with metrics that reuse one output buffer / return views of a table), predict (after fit), find_cluster_centers; (b) all compositions of n<=6 (T: 8) x all '
         'flat center indices x all label vectors pattern through ClusterResult.partition/partition_list/'
         'partition_indices with list and ndarray center indices, partition called twice; find_cluster_centers for label dtypes '
         'int8..int64 over 3..300 frames (index range of the label dtype); (c) batch_reassign: all length vectors (<=3 files, length 1..3) x every batch size from '
@@ -28,7 +28,7 @@ RULE = ('(a) data sets: ordered tuples of distinct lattice points (Q: 1-D {0..4}
 ASSUMPTIONS = ['RMSD clauses (batch reassignment) compared at 1e-4: mdtraj float32 QCP superposition differs by up to ~2e-5 between precentered-batch and per-file evaluation of the same frames',
                'batch_reassign is driven with determine_batch_size substituted by the explorer (environment answer) '
                'and the simulated in-process worker pool; the real trajectory files are written with mdtraj']
-GUARDS = {'ndarray_indices': 100, 'label_dtypes': 50, 'more_centers_than_frames': 100, 'centers_not_frames': 100, 'ragged_partition': 100, 'square_partition': 50,
+GUARDS = {'narrow_lengths': 10, 'ndarray_indices': 100, 'label_dtypes': 50, 'more_centers_than_frames': 100, 'centers_not_frames': 100, 'ragged_partition': 100, 'square_partition': 50,
           'len1_traj': 100, 'predict': 100, 'batch_boundary_cases': 20}
 NSH = {'quick': 32, 'thorough': 128}
 METRICS = ('euclidean', 'manhattan', 'chebyshev')
@@ -87,6 +87,8 @@ def check_assign(case, ctx):
     centers = [c for c in C]
     try:
         if case.get('via') == 'predict':
+            pass
+        if case.get('via') == 'predict':
             from enspara.cluster import KCenters
             est = KCenters(cr.impl_metric(metric), n_clusters=len(C))
             est.fit(C)        # fitted on the center set itself: centers_ is a permutation of C
@@ -98,8 +100,23 @@ def check_assign(case, ctx):
             ctx.guard('predict')
             fcc = r.center_indices
         else:
-            lab, dist = util.assign_to_nearest_center(
-                X, centers, util._get_distance_method(cr.impl_metric(metric)))
+            dm = util._get_distance_method(cr.impl_metric(metric))
+            via_ = case.get('via', 'fn')
+            if via_ == 'fn_outbuf':
+                # a metric that hands back the SAME float64 buffer on every call (the documented out= argument)
+                import functools
+                scratch = np.zeros(len(X))
+                from enspara.geometry import libdist
+                dm = functools.partial(getattr(libdist, metric), out=scratch)
+            elif via_ == 'fn_table':
+                # a metric answering from a precomputed table: returns VIEWS of persistent storage
+                table = np.array([m(X, c) for c in C])
+                table0 = table.copy()
+                rowof = {tuple(np.atleast_1d(c).tolist()): i for i, c in enumerate(C.tolist())}
+                dm = lambda Xa, y: table[rowof[tuple(np.atleast_1d(y).tolist())]]
+            lab, dist = util.assign_to_nearest_center(X, centers, dm)
+            if via_ == 'fn_table' and not np.array_equal(table, table0):
+                ctx.violation('assign:corrupts_metric_storage', case, 'the distance table the metric answers from was modified')
             fcc = util.find_cluster_centers(lab, dist)
     except Exception as e:
         ctx.violation('assign:raises:%s:%s' % (case.get('via', 'fn'), type(e).__name__), case, 'raised %r on %r' % (e, case))
@@ -223,6 +240,40 @@ def check_partition(case, ctx):
             ctx.violation('partition_indices:differs', case, '%r vs %r' % (pi, p.center_indices))
     except Exception as e:
         ctx.violation('partition_helpers:raises:%s' % type(e).__name__, case, repr(e))
+
+
+def check_narrow_lengths(ctx):
+    """trajectory lengths given as a narrow-dtype numpy array whose running sum leaves the dtype's range"""
+    from enspara import ra
+    from enspara.cluster import util
+    for dt in ('int8', 'uint8', 'int16', 'int64'):
+        for lengths in ([100, 100, 100], [50, 120, 90, 3], [127, 1, 127], [200, 100] if dt != 'int8' else [60, 60, 60]):
+            if max(lengths) > np.iinfo(dt).max:
+                continue
+            ctx.ev()
+            ctx.guard('narrow_lengths')
+            n = sum(lengths)
+            L = np.array(lengths, dtype=dt)
+            case = {'kind': 'narrow_lengths', 'dtype': dt, 'lengths': lengths}
+            ctx.state(('narrowlen', dt, tuple(lengths)), nontrivial=n > np.iinfo(dt).max)
+            try:
+                pl = ra.partition_list(np.arange(n), L)
+                if [len(x) for x in pl] != lengths or np.concatenate(pl).tolist() != list(range(n)):
+                    ctx.violation('partition_list:narrow_lengths_dtype', case, 'rows of length %r for lengths %r (%s)' % ([len(x) for x in pl], lengths, dt))
+                idx = [0, lengths[0], n - 1]
+                pi = ra.partition_indices(idx, L)
+                starts = np.concatenate([[0], np.cumsum(lengths)[:-1]])
+                want = [(int(np.searchsorted(starts, i, side='right') - 1), int(i - starts[np.searchsorted(starts, i, side='right') - 1])) for i in idx]
+                if [tuple(map(int, x)) for x in pi] != want:
+                    ctx.violation('partition_indices:narrow_lengths_dtype', case, '%r != %r' % (pi, want))
+                res = util.ClusterResult(center_indices=idx, assignments=np.arange(n) % 3, distances=np.arange(n) * 1.0, centers=[0, 1, 2])
+                p = res.partition(L)
+                rows = [np.asarray(r) for r in p.assignments]
+                if [len(r) for r in rows] != lengths:
+                    ctx.violation('partition:narrow_lengths_dtype', case, 'partition rows %r' % [len(r) for r in rows])
+            except Exception as e:
+                ctx.violation('partition:narrow_lengths_dtype:raises:%s' % type(e).__name__, case, 'raised %r for lengths %r as %s' % (e, lengths, dt))
+    ctx.sample(case)
 
 
 def check_fcc_dtypes(ctx):
@@ -357,8 +408,12 @@ def run_shard(sh, ctx):
                 if metric == 'chebyshev' and not isinstance(data[0], tuple):
                     continue
                 for dtype in ('float64', 'int32') if metric != 'chebyshev' else ('float64',):
-                    for via in ('fn', 'predict'):
+                    for via in ('fn', 'predict', 'fn_outbuf', 'fn_table'):
                         if via == 'predict' and (dtype != 'float64'):
+                            continue
+                        if via == 'fn_outbuf' and (metric == 'chebyshev' or dtype != 'float64' or j % 3):
+                            continue
+                        if via == 'fn_table' and (len(set(map(tuple, np.atleast_2d(cr.as_array(cen, dtype)).tolist()))) != len(cen) or j % 3):
                             continue
                         case = {'kind': 'assign', 'data': data, 'centers': cen, 'metric': metric, 'dtype': dtype, 'via': via}
                         check_assign(case, ctx)
@@ -366,6 +421,7 @@ def run_shard(sh, ctx):
                 ctx.sample(case)
     elif kind == 'fcc':
         check_fcc_dtypes(ctx)
+        check_narrow_lengths(ctx)
     elif kind == 'partition':
         n = i
         for lengths in compositions(n):
@@ -389,5 +445,8 @@ def run_shard(sh, ctx):
 def replay(case, ctx):
     if case['kind'] == 'fcc_dtype':
         check_fcc_dtypes(ctx)
+        return
+    if case['kind'] == 'narrow_lengths':
+        check_narrow_lengths(ctx)
         return
     {'assign': check_assign, 'partition': check_partition, 'batch': check_batch}[case['kind']](case, ctx)
